@@ -199,21 +199,11 @@ type filler struct {
 	nNil, nEmpty, nNonZero, nBigSlice, nTime, nSubMs, nPre1970, nIface int
 }
 
-// The JSON codec of go-wire parses numbers through float64 (encoding/json into interface{}), so
-// integers of magnitude >= 2^53 are outside what JSON callers can carry; heights, rounds, powers
-// and durations of real callers are far below. The binary codec is exercised on the full range.
-func (f *filler) clampI(x int64) int64 {
-	if f.codec == codecJSON {
-		return x % (1 << 53)
-	}
-	return x
-}
-func (f *filler) clampU(x uint64) uint64 {
-	if f.codec == codecJSON {
-		return x % (1 << 53)
-	}
-	return x
-}
+// Integers are exercised on their full range in both codecs. (The JSON codec used to parse numbers
+// through float64, which rounded every integer above 2^53; the generator was clamped to that range
+// then. It is a recorded, repaired finding now - known_findings.json, C03/C18 - and the clamp is gone.)
+func (f *filler) clampI(x int64) int64   { return x }
+func (f *filler) clampU(x uint64) uint64 { return x }
 
 func (f *filler) time() time.Time {
 	// binary: "nanoseconds since epoch" (int64) => representable instants are 1678..2262;
